@@ -4,12 +4,16 @@
 (* step. The IO configuration does not occur in the guards (method selection is C36), so it is fixed.    *)
 EXTENDS SecurityManager
 
-CONSTANT MCKind
-MCConfigs == { [kind |-> MCKind, in |-> 1, out |-> 1, mitm |-> FALSE, bond |-> b, oob |-> FALSE, sync |-> s] :
-               b \in BOOLEAN, s \in -1..1 }
+CONSTANT MCKinds
+MCConfigs == { [kind |-> k, in |-> 1, out |-> 1, mitm |-> FALSE, bond |-> b, oob |-> FALSE, sync |-> s] :
+               k \in MCKinds, b \in BOOLEAN, s \in -1..1 }
 MCRequests == { [io |-> i, oob |-> 0, auth |-> a, maxkey |-> 16, idist |-> 0, rdist |-> 0] : i \in {1, 5}, a \in {0, 8} }
 AllProps == {"C32", "C33", "C34", "C35"}
 NoProps == {}
+AllKinds == {"legacy", "lesc", "combined"}
 AllOps == 0..15
-QuickOps == {0, 1, 3, 4, 5, 6, 11, 12, 13}
+QuickOps == {1, 3, 4, 11, 12, 13}
+AllLens == 0..2
+QuickLens == {0, 1}
+QuickConfigs == { c \in MCConfigs : c.bond /\ c.sync # 0 }
 =============================================================================
